@@ -2,6 +2,7 @@ import Driver.Proto
 import Driver.OpsBind
 import XsdataModel.Dict.Encode
 import XsdataModel.Dict.Decode
+import XsdataModel.Dict.EncodeFlags
 open Lean Proto Py Xs.Bind Xs.Dict
 
 namespace OpsDict
@@ -63,8 +64,32 @@ def jND (r : ND Val) : Json :=
   | .ok vs => ok (jList jVal vs)
   | .error e => jErr e
 
+partial def dDV (j : Json) : Except String DV :=
+  match j with
+  | .null => .ok .none
+  | _ =>
+    match j.getObjVal? "enum", j.getObjVal? "list", j.getObjVal? "model" with
+    | .ok e, _, _ => do
+      let mixin ← OpsBind.dBool (field e "mixin")
+      let v ← dDV (field e "value")
+      pure (.enum mixin v)
+    | _, .ok (.arr xs), _ => do
+      let ys ← xs.toList.mapM dDV
+      pure (.list ys)
+    | _, _, .ok i => (asInt i).map .model
+    | _, _, _ => (OpsBind.dPVal j).map .prim
+
 def run (op : String) (a : Json) : Option (Except String Json) :=
   match op with
+  | "dict.encflags" => some do
+      let fac ← dFactory (field a "factory")
+      let wrapper ← OpsBind.dOptStr (field a "wrapper")
+      let loc ← dStr (field a "local")
+      let wrapped ← OpsBind.dBool (field a "wrapped")
+      let v ← dDV (field a "value")
+      pure <| match encFlagsF fac wrapper loc fuel wrapped v with
+        | .ok j => ok (jJ j)
+        | .error e => jErr e
   | "dict.enc" => some do
       let Γ ← dCtx (field a "ctx")
       let v ← dVal (field a "value")
